@@ -343,9 +343,11 @@ func (c *Ciphertext) ASN1() []byte {
 type Triple struct {
 	X1, Y1 *big.Int
 	C2, C3 []byte
-	// Canonical is false when the encoding is one the serialisers above never
-	// produce (hybrid prefix with the wrong parity bit, BER length forms, padded
-	// integers): a decoder may refuse such a string.
+	// Canonical is true for the encodings every conforming decoder has to accept:
+	// uncompressed (04) or compressed (02/03) C1 in the plain layouts, DER in the
+	// ASN.1 layout, non-empty C2. Hybrid points (06/07, whatever the parity bit),
+	// BER length forms, padded integers and an empty C2 are parsed (so that the
+	// harness can tell which triple they denote) but a decoder may refuse them.
 	Canonical bool
 }
 
@@ -356,7 +358,7 @@ func (t *Triple) SameAs(c *Ciphertext) bool {
 
 // ParsePoint decodes a point at the head of b (forms 02/03/04/06/07), returning
 // the number of bytes used. Lenient: the parity bit of a hybrid prefix is not
-// checked (canonical reports whether it was right). The point must be on the curve.
+// checked; canonical is true for the forms 02/03/04 only. The point must be on the curve.
 func ParsePoint(cv Curve, b []byte) (x, y *big.Int, used int, canonical bool, err error) {
 	if len(b) == 0 {
 		return nil, nil, 0, false, ErrDecrypt
@@ -371,7 +373,7 @@ func ParsePoint(cv Curve, b []byte) (x, y *big.Int, used int, canonical bool, er
 		if !cv.OnCurve(x, y) {
 			return nil, nil, 0, false, ErrDecrypt
 		}
-		canonical = b[0] == 4 || uint(b[0]&1) == y.Bit(0)
+		canonical = b[0] == 4
 		return x, y, 1 + 2*n, canonical, nil
 	case 2, 3:
 		if len(b) < 1+n {
@@ -387,17 +389,17 @@ func ParsePoint(cv Curve, b []byte) (x, y *big.Int, used int, canonical bool, er
 	return nil, nil, 0, false, ErrDecrypt
 }
 
-// ParsePlain splits C1||C3||C2 / C1||C2||C3. C2 must be non-empty.
+// ParsePlain splits C1||C3||C2 / C1||C2||C3 (C2 may be empty: not canonical).
 func ParsePlain(cv Curve, b []byte, o Order) (*Triple, error) {
 	x, y, used, canon, err := ParsePoint(cv, b)
 	if err != nil {
 		return nil, err
 	}
 	rest := b[used:]
-	if len(rest) <= sm3.Size {
+	if len(rest) < sm3.Size {
 		return nil, ErrDecrypt
 	}
-	t := &Triple{X1: x, Y1: y, Canonical: canon}
+	t := &Triple{X1: x, Y1: y, Canonical: canon && len(rest) > sm3.Size}
 	if o == C1C3C2 {
 		t.C3, t.C2 = rest[:sm3.Size], rest[sm3.Size:]
 	} else {
@@ -452,7 +454,7 @@ func asn1Uint(b []byte) (v *big.Int, canonical bool, err error) {
 
 // ParseASN1 reads SEQUENCE{INTEGER x1, INTEGER y1, OCTET STRING C3, OCTET STRING C2}
 // (no trailing bytes, definite lengths). The point must be on the curve and C3
-// must have the size of the hash; C2 must be non-empty.
+// must have the size of the hash (C2 may be empty: not canonical).
 func ParseASN1(cv Curve, b []byte) (*Triple, error) {
 	tag, body, rest, canon, err := tlv(b)
 	if err != nil || tag != 0x30 || len(rest) != 0 {
@@ -479,9 +481,10 @@ func ParseASN1(cv Curve, b []byte) (*Triple, error) {
 		return nil, ErrDecrypt
 	}
 	t.Canonical = t.Canonical && c
-	if len(t.C3) != sm3.Size || len(t.C2) == 0 || !cv.OnCurve(t.X1, t.Y1) {
+	if len(t.C3) != sm3.Size || !cv.OnCurve(t.X1, t.Y1) {
 		return nil, ErrDecrypt
 	}
+	t.Canonical = t.Canonical && len(t.C2) > 0
 	return t, nil
 }
 
@@ -603,7 +606,7 @@ func SelfTest() error {
 	sers = append(sers, ser{ct.ASN1(), ASN1})
 	for _, s := range sers {
 		t, err := Parse(SM2, s.b, s.l)
-		if err != nil || !t.SameAs(ct) || !t.Canonical {
+		if err != nil || !t.SameAs(ct) || t.Canonical != (s.b[0] != 6 && s.b[0] != 7) {
 			return fmt.Errorf("ref/sm2enc self test: %v serialisation does not parse back", s.l)
 		}
 		got, err := Decrypt(SM2, d, s.b, s.l)
